@@ -29,11 +29,12 @@ func (k Keeper) WeightedMode(ctx context.Context, reports []types.MicroReport, m
 		totalReporterPower += r.Power
 	}
 
-	// find the max frequency
-	for value, frequency := range frequencyMap {
-		if frequency > maxFrequency {
+	// find the max frequency; iterate the reports (store order) rather than the map so that
+	// values with equal weight are resolved the same way on every node
+	for _, r := range reports {
+		if frequency := frequencyMap[r.Value]; frequency > maxFrequency {
 			maxFrequency = frequency
-			mode = value
+			mode = r.Value
 		}
 	}
 
